@@ -14,7 +14,9 @@ Definition c13_fn_oracle (c : string * list json * option json) : bool :=
   else if String.eqb name "ArrayRange" then
     match args, obs with
     | [JInt s; JInt e; JInt i], Some out => negb (Z.eqb i 0) && range_ok s e i out
-    | [JInt s; JInt e; JInt i], None => Z.eqb i 0 || (1000 <? (Z.abs (e - s) / Z.abs i) + 1)%Z
+    | [JInt s; JInt e; JInt i], None =>
+        (* refused only for a zero step or more than 1000 items; a range that runs away from its end has none *)
+        Z.eqb i 0 || (1000 <? (if (0 <? i)%Z then (if (s <=? e)%Z then (e - s) / i + 1 else 0) else (if (e <=? s)%Z then (s - e) / (- i) + 1 else 0)))%Z
     | _, _ => true
     end
   else if String.eqb name "ArrayUnique" then
